@@ -119,6 +119,17 @@ def redirect_use(root: Path, rel: str, old: str, new: str):
     f.write_text(s)
 
 
+def replace_text(root: Path, rel: str, old: str, new: str):
+    """exact-text replacement of one expression (must occur exactly once in the non-test part)"""
+    f = root / rel
+    s = f.read_text()
+    cut = s.find("#[cfg(test)]\nmod tests")
+    head = s if cut < 0 else s[:cut]
+    if head.count(old) != 1:
+        raise InjectError("%s: replacement anchor `%s` occurs %d times" % (rel, old, head.count(old)))
+    f.write_text(s.replace(old, new, 1))
+
+
 def insert_before_fn(root: Path, rel: str, fn_sig_regex: str, text: str):
     """Insert attribute text on the line before the (unique) function signature matching
     the regex (searched in the non-test part of the file)."""
@@ -148,6 +159,8 @@ def apply(root: Path, spec: dict):
         add_crate_module(root, name, Path(target))
     for rel, old, new in spec.get("redirects", []):
         redirect_use(root, rel, old, new)
+    for rel, old, new in spec.get("replacements", []):
+        replace_text(root, rel, old, new)
     for rel, rx, text in spec.get("contracts", []):
         insert_before_fn(root, rel, rx, text)
     for rel, mods in spec.get("modules", {}).items():
